@@ -130,7 +130,7 @@ def discharge(spec, workroot, keep=False, extra_cbmc=None, trace_props=None, sol
     if os.environ.get('VERIF_NOCACHE') != '1' and os.path.exists(cfile):
         try:
             c = json.load(open(cfile))
-            res["obligations"] = c["obligations"]
+            res["obligations"] = label_obligations(c["raw"], tu, spec, meta)
             res["tool_s"]["cbmc"] = c["cbmc_s"]
             res["solver_result_reused"] = {"query_sha256": ckey, "decided_at": c["decided_at"], "cbmc_s": c["cbmc_s"]}
             res["tu_path"] = cpath
@@ -165,30 +165,16 @@ def discharge(spec, workroot, keep=False, extra_cbmc=None, trace_props=None, sol
         res["status"] = "tool-error"
         res["reason"] = "quantifier ignored by SAT back end"
         return res
-    fn_lo, fn_hi = meta["fn_lines"]
+    raw = []
     for r in results:
         sl = r.get('sourceLocation', {})
-        line = int(sl.get('line', 0) or 0)
-        f = sl.get('file', '')
-        lab = None
-        kind = classify(r['property'], r.get('description', ''))
-        if f.endswith('unit.c') and line in tu.labels:
-            lab, lk = tu.labels[line]
-        if lab is None and f:
-            lab = shim_labels().get((os.path.basename(f), line))
-        if lab is None:
-            dm = re.match(r'\s*\[([A-Z]\d+\.[^\]]+)\]', r.get('description', ''))
-            if dm:
-                lab = dm.group(1)
-        if lab is None and kind == 'safety' and spec.safety and f.endswith('unit.c') and fn_lo <= line <= fn_hi:
-            lab = spec.safety
-        # cbmc reports UNKNOWN for properties it could not decide because an unwinding assertion failed
-        ob = {"id": r['property'], "status": r['status'], "kind": kind, "label": lab,
-              "description": r.get('description', '')[:200], "line": line,
-              "file": os.path.basename(f) if f else ''}
+        e = {"property": r['property'], "status": r['status'], "description": r.get('description', ''),
+             "line": int(sl.get('line', 0) or 0), "file": sl.get('file', '')}
         if r['status'] == 'FAILURE' and 'trace' in r:
-            ob["trace"] = summarize_trace(r['trace'])
-        res["obligations"].append(ob)
+            e["trace"] = summarize_trace(r['trace'])
+        raw.append(e)
+    res["obligations"] = label_obligations(raw, tu, spec, meta)
+    res["_raw"] = raw
     if not keep:
         for fn in ('a.gb', 'b.gb'):
             try:
@@ -199,12 +185,53 @@ def discharge(spec, workroot, keep=False, extra_cbmc=None, trace_props=None, sol
     if res["tool_s"].get("cbmc", 0) >= CACHE_MIN_S and res["status"] == "ok":
         try:
             os.makedirs(os.path.dirname(cfile), exist_ok=True)
-            json.dump({"obligations": res["obligations"], "cbmc_s": res["tool_s"]["cbmc"],
+            json.dump({"raw": res.get("_raw", []), "cbmc_s": res["tool_s"]["cbmc"],
                        "decided_at": time.strftime('%Y-%m-%dT%H:%M:%SZ', time.gmtime())}, open(cfile + '.tmp', 'w'))
             os.replace(cfile + '.tmp', cfile)
         except Exception:
             pass
     return res
+
+
+def label_obligations(raw, tu, spec, meta):
+    """attach kind and label to cbmc's per-property results (also used for memoised solver results: labels are always recomputed)"""
+    out = []
+    fn_lo, fn_hi = meta["fn_lines"]
+    for r in raw:
+        line = r["line"]
+        f = r["file"]
+        lab = None
+        kind = classify(r['property'], r.get('description', ''))
+        if f.endswith('unit.c') and line in tu.labels:
+            lab, lk = tu.labels[line]
+        if lab is None and f.endswith('unit.c') and kind in ('loop_invariant_base', 'loop_invariant_step'):
+            # cbmc reports the invariants of a loop one by one (suffix .N) but all at the loop head: the N-th obligation belongs to the
+            # N-th invariant line of the contract block that follows the head
+            inv_lines = []
+            k = line + 1
+            while k <= len(tu.lines) and tu.lines[k - 1].lstrip().startswith('__CPROVER_'):
+                if tu.lines[k - 1].lstrip().startswith('__CPROVER_loop_invariant'):
+                    inv_lines.append(k)
+                k += 1
+            m = re.search(r'\.(\d+)$', r['property'])
+            n = int(m.group(1)) if m else 0
+            if 1 <= n <= len(inv_lines) and inv_lines[n - 1] in tu.labels:
+                lab = tu.labels[inv_lines[n - 1]][0]
+        if lab is None and f:
+            lab = shim_labels().get((os.path.basename(f), line))
+        if lab is None:
+            dm = re.match(r'\s*\[([A-Z]\d+\.[^\]]+)\]', r.get('description', ''))
+            if dm:
+                lab = dm.group(1)
+        if lab is None and kind == 'safety' and spec.safety and f.endswith('unit.c') and fn_lo <= line <= fn_hi:
+            lab = spec.safety
+        ob = {"id": r['property'], "status": r['status'], "kind": kind, "label": lab,
+              "description": r.get('description', '')[:200], "line": line,
+              "file": os.path.basename(f) if f else ''}
+        if "trace" in r:
+            ob["trace"] = r["trace"]
+        out.append(ob)
+    return out
 
 
 CACHE_MIN_S = 60
